@@ -269,9 +269,10 @@ def model_output(fam, case, scratch):
     src = CASES_HEADER % {"mods": " ".join(fam["coq_modules"])}
     src += "Definition input : %s := %s.\n" % (fam["in_type"], coqterm.term(case["coq_in"]))
     src += "Definition observed : %s := %s.\n" % (fam["obs_type"], coqterm.term(case["coq_obs"]))
-    src += "Eval vm_compute in (%s input).\n" % fam["model"]
     if fam.get("explain"):
         src += "Eval vm_compute in (%s (input, observed)).\n" % fam["explain"]
+    else:
+        src += "Eval vm_compute in (%s input).\n" % fam["model"]
     with open(path, "w") as fh:
         fh.write(src)
     r = run(["timeout", "300", "coqc", "-Q", COQ, "Rosmar", path], cwd=scratch)
